@@ -325,7 +325,13 @@ func (s *Sim) runReference() {
 	cfg := &config.Config{ShardNum: s.k.ShardNum, Databases: 1, ChanBufferSize: 10, LogLevel: "panic"}
 	config.Configures = cfg
 	mgr := server.NewManager(cfg)
-	ctx := context.Background()
+	// a standalone SUBSCRIBE leaves a goroutine behind that lives as long as its
+	// context: the reference gets its own, ended with the reference run
+	ctx, cancel := context.WithCancel(context.Background())
+	defer func() {
+		cancel()
+		synctest.Wait()
+	}()
 	if len(s.sc.Clients) == 0 {
 		return
 	}
